@@ -1,5 +1,6 @@
 import LPVerif.Lemmas.CoreExec
 import LPVerif.Lemmas.ProfExact
+import LPVerif.Lemmas.ProfOwn
 /-!
 # C01 — per-line hit counts are exact
 
@@ -109,6 +110,30 @@ theorem profiler_hits_exact (ops : List Op) (lines : List Int) (threads : List N
 /-- events that arrive while tracing is not installed in their thread change nothing at all -/
 theorem untraced_inert (s : Prof.St) (e : Ev) (h : s.tracing e.t = false) : s.step (.ev e) = s := by
   simp [Prof.St.step, Prof.St.event, h]
+
+/-- **C01 as `get_stats` reports it.**  For every history from a fresh profiler in which functions come into existence with
+    compiler-produced bytecode: the hits reported for line `l` under a label are — once nothing is pending at `l` and no `disable()`
+    interrupted a line — exactly the LINE events delivered for line `l` of the bytecodes registered under that label, summed over
+    those code objects (a function registered twice has two of them).  Nothing of another bytecode is counted, nothing is lost in a
+    bucket `get_stats` does not read. -/
+theorem reported_hits_exact (ops : List Op) (hraw : ∀ op ∈ ops, DeclRaw op) (lab : Nat) (l : Int) (threads : List Nat)
+    (hth : ∀ op ∈ ops, ∀ t, op.thread = some t → t ∈ threads) (htn : threads.Nodup)
+    (hq : ∀ p ∈ (Prof.St.init.run ops).chm, pend (Prof.St.init.run ops).core.abs threads p.1.blk l = 0)
+    (hd : ∀ p ∈ (Prof.St.init.run ops).chm, dropped Prof.St.init ops p.1.blk l = 0) :
+    reportedHits (Prof.St.init.run ops) lab l
+      = (((Prof.St.init.run ops).chm.filter (fun p => p.1.label = lab)).map fun p => delivered Prof.St.init ops p.1.blk l).sum := by
+  have hown := (run_own ops Prof.St.init hraw init_own).ownV
+  unfold reportedHits
+  have hfull := sumHits_full (Prof.St.init.run ops).view hown
+    ((Prof.St.init.run ops).chm.filter (fun p => p.1.label = lab)) (fun p hp => (List.mem_filter.mp hp).1) l
+  simp only [Prof.St.view] at hfull
+  rw [hfull]
+  congr 1
+  apply List.map_congr_left
+  intro p hp
+  have hp' := (List.mem_filter.mp hp).1
+  exact profiler_hits_exact ops _ threads p.1.blk l (fun c hc => mem_candLines _ _ _ hc) (candLines_nodup _ _) hth htn
+    (hq p hp') (hd p hp')
 
 end profiler
 
